@@ -141,6 +141,22 @@ type PtrOnly struct {
 func (p *PtrOnly) Double() int  { return 2 * p.N }
 func (p *PtrOnly) Pair() string { return fmt.Sprintf("(%d,%s)", p.N, p.X) }
 
+// further shapes: a named map type, a map with a named string key type, an embedded interface, methods with
+// several results / variadic parameters / a parameter
+type Dict map[string]interface{}
+type Key string
+type Desc interface{ Describe() string }
+type WithIface struct {
+	Desc
+	K int
+}
+type Fetcher struct{ N int }
+
+func (f Fetcher) Fetch() (string, error)       { return fmt.Sprintf("fetched-%d", f.N), nil }
+func (f Fetcher) Join(parts ...string) string  { return fmt.Sprintf("joined-%d-%d", f.N, len(parts)) }
+func (f Fetcher) Args(a int) int               { return a + f.N }
+func (f *Fetcher) Fetch2() (int, string, bool) { return f.N, "second", true }
+
 func handObjects() []interface{} {
 	b := Base{ID: 7, Title: "bt", hid: "h"}
 	top := Top{Mid: Mid{Base: b, Level: 3}, Name: "top", Title: "tt"}
@@ -166,13 +182,19 @@ func handObjects() []interface{} {
 		Doc{Tracking: Tracking{Stamp: Stamp{ID: "trk", At: 5}, Source: "src"}, Record: Record{ID: "rec", Name: "rname"}, Author: Author{Name: "aname", Mail: "m@x"}, Title: "T", Lang: "en", Pages: 3},
 		&Doc{Tracking: Tracking{Stamp: Stamp{ID: "trk2", At: 6}}, Record: Record{ID: "rec2"}, Lang: "de", Draft: true},
 		PtrOnly{N: 3, X: "v"}, &PtrOnly{N: 4, X: "p"},
+		Dict{"A": 1, "name": "d", "K": nil}, Dict{},
+		map[Key]int{"A": 5, "ID": 6}, map[Key]string{"name": "kn"},
+		WithIface{Desc: Base{ID: 3, Title: "wi"}, K: 1}, &WithIface{Desc: &Base{ID: 4}, K: 2},
+		Fetcher{N: 2}, &Fetcher{N: 3},
+		WithIface{K: 9}, &WithIface{K: 10},
 		Shadow{EmbV: EmbV{Value: 3, Sum: "field-sum", Scale: 1.5}, K: 1}, &Shadow{EmbV: EmbV{Value: 4, Sum: "field-sum-2"}, K: 2},
 	}
 }
 
 var c20Names = []string{"A", "B", "C", "X", "Y", "ID", "Title", "Level", "Name", "Extra", "hid", "v",
 	"Describe", "Bump", "Hello", "Sum", "Scale", "Nothing", "Pair", "Value", "Double", "Base", "Mid", "name", "nil", "zzz", "F0", "F1", "F2", "F3",
-	"At", "Source", "Mail", "Lang", "Pages", "Draft", "Stamp", "Tracking", "Record", "Author"}
+	"At", "Source", "Mail", "Lang", "Pages", "Draft", "Stamp", "Tracking", "Record", "Author",
+	"K", "N", "Desc", "Fetch", "Fetch2", "Join", "Args"}
 
 var genFieldNames = []string{"A", "B", "C", "X", "F0", "F1", "F2", "F3"}
 var genFieldTypes = []reflect.Type{reflect.TypeOf(0), reflect.TypeOf(""), reflect.TypeOf(true), reflect.TypeOf(1.5), reflect.TypeOf([]int(nil))}
@@ -229,7 +251,7 @@ func refAttr(obj interface{}, name string) (val interface{}, ambiguous bool) {
 	}
 	v := reflect.ValueOf(obj)
 	if v.Kind() == reflect.Map && v.Type().Key().Kind() == reflect.String {
-		if e := v.MapIndex(reflect.ValueOf(name)); e.IsValid() {
+		if e := v.MapIndex(reflect.ValueOf(name).Convert(v.Type().Key())); e.IsValid() {
 			return e.Interface(), false
 		}
 		return nil, false
